@@ -717,6 +717,7 @@ pub struct World {
     pub tf_fees: Rc<RefCell<Vec<Coin>>>,
     pub cfg: WorldCfg,
     pub owner: Addr,
+    pub deployer: Addr,
     pub users: Vec<Addr>,
     /// a contract account used as an ordinary user / receiver
     pub hostile: Addr,
@@ -742,6 +743,9 @@ impl World {
         let tf_fees = Rc::new(RefCell::new(cfg.tf_fees.clone()));
         let api = MockApiBech32::new("mantra");
         let owner = api.addr_make("owner");
+        // the account that deploys (instantiates) the contracts that name their owner in the
+        // instantiate message; it must end up with no rights at all
+        let deployer = api.addr_make("deployer");
         let users: Vec<Addr> = (0..cfg.n_users)
             .map(|i| api.addr_make(&format!("user{i}")))
             .collect();
@@ -834,7 +838,7 @@ impl World {
         let em = app
             .instantiate_contract(
                 em_code,
-                owner.clone(),
+                deployer.clone(),
                 &mantra_dex_std::epoch_manager::InstantiateMsg {
                     owner: owner.to_string(),
                     epoch_config: mantra_dex_std::epoch_manager::EpochConfig {
@@ -860,7 +864,7 @@ impl World {
         let fm = app
             .instantiate_contract(
                 fm_code,
-                owner.clone(),
+                deployer.clone(),
                 &mantra_dex_std::farm_manager::InstantiateMsg {
                     owner: owner.to_string(),
                     epoch_manager_addr: em.to_string(),
@@ -931,6 +935,7 @@ impl World {
             tf_fees,
             cfg,
             owner,
+            deployer,
             users,
             hostile,
             reject_all,
